@@ -674,10 +674,14 @@ func exec(op string) string {
 		}
 		var sb strings.Builder
 		sb.WriteString("ok")
-		for _, nd := range sim.Nodes {
+		proc := "same"
+		for i, nd := range sim.Nodes {
 			fmt.Fprintf(&sb, " %d", nd.Hash)
+			if i < len(otherProc) && otherProc[i] != nd.Hash {
+				proc = "differs" // another process of the same binary hashes this router name differently
+			}
 		}
-		return sb.String()
+		return sb.String() + " proc=" + proc
 	case "link", "unlink":
 		a, ok := valid(f, 2)
 		up := f[0] == "link"
@@ -848,11 +852,19 @@ func exec(op string) string {
 	return "bad-op"
 }
 
+// hashes of the router names r0..r8 as computed by ANOTHER process of this binary
+var otherProc []uint64
+
 func TestVerif(t *testing.T) {
+	if os.Getenv("VERIF_MODE") == "hashes" {
+		dvsim.PrintHashes(common.EnvInt("VERIF_N", 9))
+		return
+	}
 	if os.Getenv("VERIF_MODE") != "exec" {
 		common.Main(t, gen, exec)
 		return
 	}
+	otherProc = dvsim.OtherProcessHashes(9)
 	synctest.Test(t, func(t *testing.T) {
 		common.Main(t, gen, exec)
 		sim.Close()
